@@ -1,6 +1,8 @@
 use vstd::prelude::*;
+use std::collections::HashMap;
 verus! {
 global size_of usize == 8;
+broadcast use vstd::std_specs::hash::group_hash_axioms;
 
 // ---------------- spec, written from the Redis Cluster specification ----------------
 pub open spec fn first_index(s: Seq<u8>, c: u8) -> Option<int>
@@ -84,3 +86,22 @@ fn shim_get_range(s: &[u8], a: usize, b: usize) -> (r: Option<&[u8]>)
 // crc16::State::<XMODEM>::calculate: the crate's table-driven loop = fold of the bitwise step
 // (step commuting square and init proved for every (u16,u8) by the Kani group c09, DESIGN 3.7)
 #[verifier::external_body] fn shim_crc16_xmodem(s: &[u8]) -> (r: u16) ensures r == spec_crc16_xmodem(s@) { unimplemented!() }
+
+// ---------------- slot table construction (SlotMapData::new) ----------------
+pub open spec fn in_ranges(rs: Seq<(usize, usize)>, s: int) -> bool { exists|j: int| 0 <= j < rs.len() && (#[trigger] rs[j]).0 <= s <= rs[j].1 }
+pub open spec fn proc(es: Seq<(String, Vec<(usize, usize)>)>, n: int, s: int) -> bool { exists|i: int| 0 <= i < n && i < es.len() && in_ranges((#[trigger] es[i]).1@, s) }
+// D9-style: HashMap::into_iter() yields every entry exactly once in an unspecified order
+#[verifier::external_body]
+fn shim_into_vec(m: HashMap<String, Vec<(usize, usize)>>) -> (r: Vec<(String, Vec<(usize, usize)>)>)
+    ensures forall|i: int| 0 <= i < r@.len() ==> m@.contains_key((#[trigger] r@[i]).0) && m@[r@[i].0] == r@[i].1,
+            forall|k: String| m@.contains_key(k) ==> exists|i: int| 0 <= i < r@.len() && (#[trigger] r@[i]).0 == k,
+            r@.len() == m@.len(),
+{ m.into_iter().collect() }
+
+pub open spec fn tab_inv(slot_arr: Seq<Option<usize>>, addrs: Seq<String>, es: Seq<(String, Vec<(usize, usize)>)>, n: int, cur: Seq<(usize, usize)>) -> bool {
+    &&& slot_arr.len() == 16384
+    &&& forall|s: int| 0 <= s < 16384 ==> match #[trigger] slot_arr[s] {
+            Some(i) => i < addrs.len() && i < es.len() && in_ranges(es[i as int].1@, s),
+            None => !proc(es, n, s) && !in_ranges(cur, s),
+        }
+}
